@@ -374,6 +374,11 @@ def execute(case):
                                 elements={'C': 1, 'H': 4}, phase='S', **tm_arg, **extra)
         else:
             m = model if model is not None else _PolyModel(fam, pieces[0], units, T_low, T_high)
+            if model is None and mform != 'attrs' and case['cseed'] % 2:
+                # a source that carries its OWN (wider) validity range, like a Nasa or Shomate species used as the
+                # model: the window passed explicitly is the one to fit, the model's range is only the default
+                m.T_low, m.T_high = max(1.0, T_low - 40.0), T_high + 150.0
+                info['model_range_wider'] = True
             kw = dict(name='fit', T_low=T_low, T_high=T_high, elements={'C': 1, 'H': 4}, phase='S')
             if mform == 'class':
                 # the documented alternative: the model's class plus the keywords that initialise it
@@ -438,6 +443,16 @@ def execute(case):
                   'hr': [to_dec(sev[1](segs[i + 1], b)) for i, b in enumerate(obrk)],
                   'sl': [to_dec(sev[2](segs[i], b)) for i, b in enumerate(obrk)],
                   'sr': [to_dec(sev[2](segs[i + 1], b)) for i, b in enumerate(obrk)]})
+        # what the fitted OBJECT reports at each break temperature, asked as a scalar and inside an array that
+        # brackets the break (continuity is a statement about the reported H and S, not only about coefficients)
+        hb, sb = [], []
+        for b in obrk:
+            arrT = np.array([0.5 * (b + max(float(obj.T_low), b * 0.99)), b, 0.5 * (b + min(float(obj.T_high), b * 1.01))])
+            ha = np.atleast_1d(obj.get_HoRT(T=arrT))
+            sa = np.atleast_1d(obj.get_SoR(T=arrT))
+            hb.append([to_dec(float(np.squeeze(obj.get_HoRT(T=b)))), to_dec(float(ha[1]))])
+            sb.append([to_dec(float(np.squeeze(obj.get_SoR(T=b)))), to_dec(float(sa[1]))])
+        e['hb'], e['sb'] = hb, sb
         samples = []
         worst = [0.0, 0.0, 0.0]
         oedges = [float(obj.T_low)] + obrk + [float(obj.T_high)]
